@@ -6,7 +6,7 @@ const { canonValue, diff, diffClass, stable, Names } = require('../lib/canon');
 
 // ShadowAlias: the module imports Vue's Fragment under the alias `Sh`, but the tag refers to a function parameter of
 // the same name (an ordinary component): classification must follow the binding, not the spelling
-const HOSTS = { Comp: 'Comp', Unbound: 'Unbound', member: 'ns.Comp', memberNative: 'ns.div', ShadowAlias: 'Sh' };
+const HOSTS = { Comp: 'Comp', Unbound: 'Unbound', member: 'ns.Comp', memberNative: 'ns.div', ShadowAlias: 'Sh', ForeignFragment: 'Fg' };
 // child shapes; `dyn` marks the ones whose treatment is decided at run time
 const SHAPES = {
   none:    { src: '' },
@@ -88,7 +88,7 @@ function makeEnv(c) {
   st.answers = answers;
   // stub for a configured pragma (`hh`): the same observable record as createVNode
   const hh = (type, props, children) => ({ __v_isVNode: true, type, props: props || null, children: children === undefined ? null : children, dirs: null });
-  return { bound, names, st, answers, sl0: answers[0], globals: { usl: answers[0], hh } };
+  return { bound, names, st, answers, sl0: answers[0], globals: { usl: answers[0], hh }, modules: { lib: { Fragment: comp('lib.Fragment') } } };
 }
 
 const PRELUDE = 'const { Comp, ns, x, y, xs, c, o, namedFn, vs, vsFoo, vsDefault, mkSlot, tick } = __env.bound;\nlet sl = __env.sl0;\n__out.setSl = (v) => { [sl] = [v]; };\n';
@@ -98,7 +98,7 @@ function render(c) {
   const ch = SHAPES[c.shape].src;
   let J = ch === '' ? `<${tag}${VSLOTS[c.vslots]} />` : `<${tag}${VSLOTS[c.vslots]}>${ch}</${tag}>`;
   if (c.host === 'ShadowAlias') J = `((Sh) => ${J})(Comp)`;
-  return (c.host === 'ShadowAlias' ? "import { Fragment as Sh } from 'vue';\n" : '') + PRELUDE + CTX[c.ctx].tpl(J) + '\n';
+  return (c.host === 'ShadowAlias' ? "import { Fragment as Sh } from 'vue';\n" : c.host === 'ForeignFragment' ? "import { Fragment as Fg } from 'lib';\n" : '') + PRELUDE + CTX[c.ctx].tpl(J) + '\n';
 }
 
 function optsJson(c) { return JSON.stringify(Object.assign({ enableObjectSlots: c.eos, optimize: c.opt }, c.pg ? { pragma: 'hh' } : {})); }
